@@ -681,4 +681,14 @@ def kvsStrings : KVs → List Str
   | .cons _ v r => valStrings v ++ kvsStrings r
 end
 
+/-- the value under a key path (koanf `Get` on nested maps) -/
+def lookupPath : List Str → KVs → Option Val
+  | [], _ => none
+  | [k], m => m.lookup k
+  | k :: k2 :: ks, m =>
+    match m.lookup k with
+    | some (.map sub) => lookupPath (k2 :: ks) sub
+    | _ => none
+
+
 end OtelVerif.C12
